@@ -864,7 +864,12 @@ pub fn gen_corpus_with(seed: u64, n_fam: usize, q_per_fam: usize, adv: bool) -> 
             let mut fam = vec![];
             let mk = |n: usize, s: &str, t: &str| -> String {
                 let huge: Vec<Value> = (0..n).map(|i| if i % 97 == 5 { json!(format!("s{}", i % 3)) } else { json!((i % 7) as i64) }).collect();
-                json!({"huge": huge, "s": s, "t": t, "list": ["a", "b", 1], "u": {"s": t}}).to_string()
+                let mut wide = serde_json::Map::new();
+                for i in 0..(n / 8).min(90) {
+                    wide.insert(format!("k{}", i), json!(i as i64 % 5));
+                }
+                wide.insert("n".repeat(300), json!("long name"));
+                json!({"huge": huge, "s": s, "t": t, "list": ["a", "b", 1], "u": {"s": t}, "wide": wide}).to_string()
             };
             let e20 = "é".repeat(20);
             let ab20 = "ab".repeat(20);
@@ -875,7 +880,7 @@ pub fn gen_corpus_with(seed: u64, n_fam: usize, q_per_fam: usize, adv: bool) -> 
             }
             let mut fq = vec![];
             for q in ["$.huge[?@ > 3]", "$.huge[?@ == 0]", "$.huge[::50]", "$.huge[-1]", "$.huge[512]", "$.huge[?@ == 's1']", "$[?length(@) == 20]", "$[?length(@) > 30]", "$..[?length(@) == 40]",
-                      "$[?length(@.s) == 40]", "$.u[?length(@) <= 22]", "$.huge[100:140]", "$.huge[?match(@, 's.')]", "$..s", "$[?count(@.huge[*]) > 512]"] {
+                      "$[?length(@.s) == 40]", "$.u[?length(@) <= 22]", "$.huge[100:140]", "$.huge[?match(@, 's.')]", "$..s", "$[?count(@.huge[*]) > 512]", "$.wide.*", "$.wide[?@ == 3]", "$.wide.k64", "$.wide['k1','k70','k2']", "$.wide..*", "$[?count(@.*) > 64]"] {
                 queries.push(q.to_string());
                 fq.push(queries.len() - 1);
                 q_other_family.push(f);
